@@ -4,6 +4,7 @@ import (
 	"fmt"
 	"go/constant"
 	"go/token"
+	"go/types"
 	"strings"
 
 	"golang.org/x/tools/go/ssa"
@@ -900,6 +901,7 @@ func returnsNonNilPtr(b *ssa.BasicBlock) bool {
 
 func C20(c *Ctx) {
 	c.Note("eventual acquisition / fairness; hash collisions only coarsen exclusion; releasing a guard from another goroutine")
+	everyKeyLatchedGroup(c, "K1.every-key-is-latched")
 	const r1 = "K1.total-lock-order"
 	c.Rule(r1, "latch.Manager.Acquire sorts the deduplicated stripe indices (sort.Ints) before the loop that locks them and locks nothing else; the indices are hash(key) %% len(stripes); stripes are locked nowhere else in the module")
 	fn := c.Fn("percolator/latch", "Manager.Acquire")
@@ -1777,4 +1779,61 @@ func lockLifetimeGuards(c *Ctx, rule string) {
 			ifs(inKey, "commitKey refuses a commit version below the lock's start version before any write", "every caller refuses CommitVersion < StartVersion before calling commitKey"),
 			"a lock can be turned into a commit record below its start version (unguarded in commitKey and in "+strings.Join(open, ", ")+"): Reader.GetWriteByStartTs never finds that record again, so CheckTxnStatus later rolls the committed transaction back")
 	}
+}
+
+// everyKeyLatchedGroup (C20): exclusion is promised for every shared key, the empty key included
+// (the property quantifies over key sets with empty keys).  Necessary condition: inside
+// Manager.Acquire (or the helper that builds the stripe indices) the hash of a key is computed
+// whatever the key's length – the hashing call is reachable when len(key) == 0.
+func everyKeyLatchedGroup(c *Ctx, rule string) {
+	c.Rule(rule, "in latch.Manager.Acquire (or the same-package helper that builds the stripe indices) the call that hashes a key (kv.MemHash) is reachable when len(key) == 0 and when len(key) > 0 (order-sign evaluation): no key of the request is left unlatched")
+	fn := c.Fn("percolator/latch", "Manager.Acquire")
+	if fn == nil {
+		return
+	}
+	body := fn
+	if len(Calls(fn, false, Named("kv.MemHash"))) == 0 {
+		for _, cs := range Calls(fn, false, func(*ssa.CallCommon) bool { return true }) {
+			if cal := cs.Common().StaticCallee(); cal != nil && cal.Blocks != nil && cal.Pkg == fn.Pkg && len(Calls(cal, false, Named("kv.MemHash"))) > 0 {
+				body = cal
+			}
+		}
+	}
+	hs := Calls(body, false, Named("kv.MemHash"))
+	c.Floor(rule, len(hs), 1, "key hashing calls")
+	role := func(v ssa.Value) string {
+		call, ok := Unwrap(v).(*ssa.Call)
+		if !ok {
+			return ""
+		}
+		bi, ok := call.Call.Value.(*ssa.Builtin)
+		if !ok || bi.Name() != "len" || len(call.Call.Args) != 1 {
+			return ""
+		}
+		// len of a key: an element of a [][]byte (range value or indexed element)
+		if t, ok := call.Call.Args[0].Type().Underlying().(*types.Slice); ok {
+			if b, ok := t.Elem().Underlying().(*types.Basic); ok && b.Kind() == types.Byte {
+				for _, h := range hs {
+					if len(h.Common().Args) == 1 && Unwrap(h.Common().Args[0]) == Unwrap(call.Call.Args[0]) {
+						return "len(key)"
+					}
+				}
+			}
+		}
+		return ""
+	}
+	empty, nonEmpty := false, false
+	for _, h := range hs {
+		s0 := map[string]int{}
+		SetSign(s0, "len(key)", "0", 0)
+		if (&SignEnv{Role: role, Signs: s0, Depth: 1}).Reaches(body, h.(ssa.Instruction)) {
+			empty = true
+		}
+		s1 := map[string]int{}
+		SetSign(s1, "len(key)", "0", 1)
+		if (&SignEnv{Role: role, Signs: s1, Depth: 1}).Reaches(body, h.(ssa.Instruction)) {
+			nonEmpty = true
+		}
+	}
+	c.Decide(empty && nonEmpty, rule, key(body, "hash-reached-for-the-empty-key"), body.Pos(), 2*len(hs)+1, "every key of the request, the empty one included, is mapped to a stripe", "zero-length keys are skipped before they are hashed: a request whose only key is empty gets the no-op guard, and two requests sharing the empty key hold their latches at the same time")
 }
